@@ -19,6 +19,7 @@ limitations under the License.
 #include <utility>
 
 #include "analysermodel_p.h"
+#include "commonutils.h"
 #include "utilities.h"
 
 namespace libcellml {
@@ -409,6 +410,16 @@ bool AnalyserModel::areEquivalentVariables(const VariablePtr &variable1,
     // address first), which is unique for every unordered pair of variables.
     // Note: a pairing function (e.g., Cantor's) computed in uintptr_t arithmetic
     //       is not injective since it wraps for real (47-bit) addresses.
+
+    // Note: only the variables of the analysed model are kept alive by this object, so only their addresses
+    //       identify them for as long as the cache lives. Any other variable may be destroyed and its address
+    //       reused by an unrelated variable, so the answer for such a pair is computed every time.
+
+    if ((mPimpl->mModel == nullptr)
+        || (owningModel(variable1) != mPimpl->mModel)
+        || (owningModel(variable2) != mPimpl->mModel)) {
+        return libcellml::areEquivalentVariables(variable1, variable2);
+    }
 
     auto v1 = reinterpret_cast<uintptr_t>(variable1.get());
     auto v2 = reinterpret_cast<uintptr_t>(variable2.get());
